@@ -6,8 +6,8 @@ tag=sys.argv[1]; pids=sys.argv[2:]
 props={}
 for l in open('/verif/properties.jsonl'):
     d=json.loads(l); props[d['id']]=d
-t=open('/verif/tools/benignprompt_template%s.txt'%('3' if tag[:2] in ('b3','b4') else '2' if tag.startswith('b2') else '')).read()
-targets=json.load(open('/verif/tools/benign_targets_b4.json' if tag.startswith('b4') else '/verif/tools/benign_targets.json')) if tag[:2] in ('b3','b4') else {}
+t=open('/verif/tools/benignprompt_template%s.txt'%('3' if tag[:2] in ('b3','b4','b5') else '2' if tag.startswith('b2') else '')).read()
+targets=json.load(open('/verif/tools/benign_targets_%s.json'%tag[:2] if tag[:2] in ('b4','b5') else '/verif/tools/benign_targets.json')) if tag[:2] in ('b3','b4','b5') else {}
 os.makedirs('/tmp/seedprompts',exist_ok=True)
 for pid in pids:
     d=props[pid]; wt='benign_'+pid.lower()+tag
